@@ -152,6 +152,7 @@ func (s *Stack) Live() bool { return s.Kind == "honest" || s.Kind == "twin" }
 
 // Cluster is the simulated system.
 type Cluster struct {
+	c08QCs []hotstuff.QuorumCert // C08: genuine certificates for two blocks everybody holds
 	Cfg     Config
 	Stacks  []*Stack
 	ByID    map[hotstuff.ID][]*Stack
@@ -536,7 +537,7 @@ func (s *sender) RequestBlock(_ context.Context, h hotstuff.Hash) (*hotstuff.Blo
 		case "actor":
 			if cl.Actor != nil && cl.Actor.ServeFetch {
 				for _, b := range cl.AllBlk {
-					if b.Hash() == h {
+					if b.Hash() == h && b.View() >= cl.Actor.ServeFrom {
 						cl.Faults["fetch-served-by-actor"]++
 						return b, true
 					}
